@@ -15,6 +15,9 @@
 //  5. request sequences on one connection (keep-alive, pipelined) and first bytes split over two TCP
 //     segments, on the http_proxy and static_file plugins, the vhost http port, tcpmux and the web
 //     servers (seq.go); socks5 sessions with split and pipelined messages. Judged per request.
+//  6. forced family (race.go): the route table changes (R1 closed or kept, protected R2 registered for the
+//     same host / longer location / user) while an accepted request waits in frps for a work connection
+//     of R1: R2's backend must never see it.
 package main
 
 import (
@@ -44,6 +47,7 @@ type spec struct {
 	Static *staticSpec `json:"static_file,omitempty"`
 	Web    *webSpec    `json:"web,omitempty"`
 	Seq    *seqSpec    `json:"sequence,omitempty"`
+	Race   *raceSpec   `json:"route_change_while_dialing,omitempty"`
 }
 
 // pending: what every tag of the run carried, for the end-of-run sweep over the backend logs
@@ -142,6 +146,8 @@ func main() {
 			runWeb(c, s.Web)
 		case s.Seq != nil:
 			runSeq(c, s.Seq)
+		case s.Race != nil:
+			runRace(c, s.Race)
 		}
 	})
 
@@ -198,6 +204,8 @@ func surfaceOf(s spec) string {
 		return "web-api"
 	case s.Seq != nil:
 		return "sequence/" + s.Seq.Surface
+	case s.Race != nil:
+		return "vhost-http/route-change-while-dialing"
 	}
 	return "?"
 }
@@ -222,6 +230,7 @@ func generate() []spec {
 	out = append(out, genStatic(rng)...)
 	out = append(out, genWeb(rng)...)
 	out = append(out, genSeq(run.RandFor("generate-sequences", 0))...)
+	out = append(out, genRace(run.RandFor("generate-race", 0))...)
 	// interleave the surfaces (the ones with a 200 ms failure delay overlap with the fast ones)
 	rng.Shuffle(len(out), func(i, j int) { out[i], out[j] = out[j], out[i] })
 	return out
